@@ -247,7 +247,7 @@ def run_spectrum(ctx, rng, idx):
         T = T / T.sum(axis=1, keepdims=True)
         kind += '+alternating'
     cname = ['ndarray', 'csr', 'coo', 'csc'][int(rng.integers(0, 4))]
-    Tin = mc.to_container(T, cname)
+    Tin = mc.to_container(T, cname, rng)
     desc = {'n': n, 'kind': kind, 'container': cname,
             'T': T if n <= 6 else 'elided'}
     ctx.describe(desc)
